@@ -6,6 +6,7 @@ import GeonumModel.Lemmas.Shift
 import GeonumModel.Lemmas.Exact
 import GeonumModel.Lemmas.ExactAdd
 import GeonumModel.Lemmas.FloatProject
+import GeonumModel.Lemmas.FloatMetric
 
 set_option linter.unusedSectionVars false
 set_option linter.unusedVariables false
@@ -264,6 +265,23 @@ theorem angle_project_float {a onto : Angle F} (ha : a.Inv) (ho : onto.Inv) :
     Fin (a.project onto) ∧ |val (a.project onto)| ≤ 1 ∧
     |val (a.project onto) - Real.cos (Angle.Tpi onto - Angle.Tpi a)| ≤ val (e10 : F) + 8 / 10 ^ 15 :=
   Angle.project_float ha ho
+
+/-- (B) **projection plus rejection reproduces `a` in rounded arithmetic** (general branch of the underlying subtraction): with
+    `p = a.project b` and `r = a.reject b = a − p`, the Cartesian components of `p` and `r` add up to those of `a` (angles in true radians)
+    within `(|a| + |p|)·(2e-7 + 1.1·(1e-10 + (40·(ba + bp + 2) + 170)·2⁻⁵³)) + 1e-28` — whatever the blade histories -/
+theorem project_add_reject_float {a b : Geonum F} (ha : a.angle.Inv) (hpinv : (a.project b).angle.Inv)
+    (hma : a.MagDom) (hmp : (a.project b).MagDom)
+    (hcb : a.angle.blade + (a.project b).angle.blade + 2 ≤ 2 ^ 39)
+    (h1 : Geonum.sameAngle a (a.project b).negate = false) (h2 : Geonum.oppositeAngle a (a.project b).negate = false) :
+    |val (a.reject b).mag * Real.cos (Angle.Tpi (a.reject b).angle) + val (a.project b).mag * Real.cos (Angle.Tpi (a.project b).angle)
+        - val a.mag * Real.cos (Angle.Tpi a.angle)|
+      ≤ (val a.mag + val (a.project b).mag) * (2 / 10 ^ 7 + 11 / 10 * (val (e10 : F)
+          + (40 * ((a.angle.blade + (a.project b).angle.blade + 2 : ℕ) : ℝ) + 170) * (1 / 2 ^ 53))) + 1 / 10 ^ 28 ∧
+    |val (a.reject b).mag * Real.sin (Angle.Tpi (a.reject b).angle) + val (a.project b).mag * Real.sin (Angle.Tpi (a.project b).angle)
+        - val a.mag * Real.sin (Angle.Tpi a.angle)|
+      ≤ (val a.mag + val (a.project b).mag) * (2 / 10 ^ 7 + 11 / 10 * (val (e10 : F)
+          + (40 * ((a.angle.blade + (a.project b).angle.blade + 2 : ℕ) : ℝ) + 170) * (1 / 2 ^ 53))) + 1 / 10 ^ 28 :=
+  Geonum.sub_cartesian_float ha hpinv hma hmp hcb h1 h2
 
 end B
 
